@@ -138,6 +138,14 @@ func VH08b_star() {
 		verif.Reach("mixed-ttl")
 	}
 	emptyFrom := verif.Choice("empty-from", len(ms)+1) - 1 // one member (or none) sends a message with an empty body
+	// one member (or none) changes a queue length once everybody is connected: its existing connections must go on
+	// delivering into (and sending from) the new queues
+	if at := verif.Choice("resize-at", len(ms)+1) - 1; at >= 0 {
+		opt := []string{mangos.OptionReadQLen, mangos.OptionWriteQLen}[verif.Choice("resize-which", 2)]
+		verif.Assert(ms[at].sock.SetOption(opt, 5) == nil, lab+"/resize")
+		verif.Quiesce()
+		verif.Reach("resized-while-connected")
+	}
 	for i, m := range ms {
 		b := []byte{byte('a' + i), verif.Byte("payload")}
 		if i == emptyFrom {
